@@ -644,9 +644,31 @@ func randGoType(rng *rand.Rand, depth int) *goType {
 			}
 			t.Fs = append(t.Fs, f)
 		}
+		if rng.Intn(3) == 0 { // a chain of anonymous (embedded) structs, 1..4 levels, promoted field names unique
+			embSeq++
+			t.Fs = append(t.Fs, goField{Name: []int{}, Ty: randEmbedded(rng, 1+rng.Intn(4), embSeq), Emb: true})
+		}
 		return t
 	}
 	return &goType{K: goScalarNames[rng.Intn(len(goScalarNames))]}
+}
+
+var embSeq int
+
+func randEmbedded(rng *rand.Rand, levels int, seq int) *goType {
+	t := &goType{K: "struct"}
+	n := 1 + rng.Intn(3)
+	for i := 0; i < n; i++ {
+		k := []string{"i32", "str", "i64", "i8", "f64", "bool"}[rng.Intn(6)]
+		t.Fs = append(t.Fs, goField{Name: ints([]byte(fmt.Sprintf("e%d_%d_%d", seq, levels, i))), Ty: &goType{K: k}, Omit: rng.Intn(5) == 0})
+	}
+	if levels > 1 {
+		f := goField{Name: []int{}, Ty: randEmbedded(rng, levels-1, seq), Emb: true}
+		// the embedded struct sits at a random position among its siblings
+		at := rng.Intn(len(t.Fs) + 1)
+		t.Fs = append(t.Fs[:at], append([]goField{f}, t.Fs[at:]...)...)
+	}
+	return t
 }
 
 func randGoValue(rng *rand.Rand, t *goType) any {
